@@ -126,4 +126,13 @@ parameters are applied in the order `serveHTTP` concatenated them (`pathLast` re
 def decodeRequest (pathLast : Bool) (body : Msg) (query path : List P) : Msg :=
   setAll body (if pathLast then query ++ path else path ++ query)
 
+/-- the FIRST `RecvMsg` of a stream transport (`streamWS`, `streamHTTP`): with a body mapping the
+frame / request body is decoded into the message, without one nothing is read; then the URL
+parameters are applied — `outside` = that application is not nested in the `hasBody` block
+(regenerated per transport: `Gen.wsParamsOutsideBody`, `Gen.httpParamsOutsideBody`). -/
+def recvFirst (outside pathLast hasBody : Bool) (frame : Msg) (query path : List P) : Msg :=
+  if hasBody then decodeRequest pathLast frame query path
+  else if outside then decodeRequest pathLast [] query path
+  else []
+
 end Larking.Param
